@@ -103,15 +103,101 @@ def rule_config(ctx):
     ctx.ob(R, "MAX_FRAME_SIZE", c == 65535, "MAX_FRAME_SIZE = %s (fits the u16 length prefix)" % c)
 
 
+def stream_count_is_min(ctx, f):
+    """The number of reusable streams created per capability (end of the `0..n` range of the creation loop) is
+    min(local max_streams, peer limit or 0). Accepted shapes: a min() call of the two; or an n assigned on
+    different paths, decided by a table over cmp(peer limit, local limit), with the peer limit being 0 when the
+    peer announced nothing (table over the Option returned by the peer map lookup)."""
+    T = ctx.T(f)
+    LF = Q.LocalFlow(f)
+
+    def is_get(t):
+        return "decl" in t["f"] and f.callee(t)[0].qname.endswith(("HashMap::get", "BTreeMap::get"))
+
+    def peer_local(l):
+        return LF.derives_from_call_where(l, is_get)
+
+    def term_peer(t):
+        return any(x[0] == "call" and x[1].endswith(("HashMap::get", "BTreeMap::get")) for x in subterms(t)) or \
+            any(x[0] == "var" and peer_local(x[1]) for x in subterms(t))
+
+    def term_local(t):
+        return not term_peer(t) and any(x[0] == "field" and x[2] == "max_streams" for x in subterms(t))
+    ends = []
+    for b in f.blocks:
+        for st in b["s"]:
+            if st["k"] == "assign" and st["r"]["k"] == "agg" and st["r"].get("def") == "std::ops::Range" and len(st["r"]["ops"]) == 2:
+                ends.append(st["r"]["ops"][1])
+    ends = [e for e in ends if any(term_peer(x) or term_local(x) for x in [T.operand(e)])]
+    if len(ends) != 1:
+        return False, "creation loop `0..n` with n derived from the limits not found (%d candidates)" % len(ends)
+    n = T.operand(ends[0])
+    # shape 1: min(local, peer.unwrap_or(0))
+    if n[0] == "call" and n[1] in ("std::cmp::min", "std::cmp::Ord::min") and len(n[2]) == 2:
+        a, b = n[2]
+        for x, y in ((a, b), (b, a)):
+            if term_local(x) and term_peer(y):
+                dflt = [z for z in subterms(y) if z[0] == "call" and z[1] in ("std::option::Option::unwrap_or", "std::option::Option::map_or", "std::option::Option::unwrap_or_default")]
+                zero = any((z[1].endswith("unwrap_or_default")) or any(w == ("const", 0) for w in subterms(z[2][1])) for z in dflt)
+                return (bool(dflt) and zero), ("min(queue.max_streams, peer.get(cap).unwrap_or(0))" if dflt and zero else "min() of the limits, but an absent peer entry does not default to 0: %s" % show(y)[:80])
+        return False, "min(%s, %s)" % (show(a)[:40], show(b)[:40])
+    if n[0] == "call" and n[1] in ("std::cmp::max", "std::cmp::Ord::max"):
+        return False, "max() of the limits"
+    if n[0] != "var":
+        return False, "n = %s" % show(n)[:80]
+    # shape 2: n assigned on different paths
+    nl = n[1]
+
+    def defs_of(l, classify):
+        out = {}
+        for bi, b in enumerate(f.blocks):
+            for st in b["s"]:
+                if st["k"] == "assign" and not st["p"].get("pr") and st["p"]["l"] == l:
+                    out.setdefault(classify(T.rvalue(st["r"])), []).append(bi)
+        return out
+
+    def cls_n(t):
+        return "peer" if term_peer(t) else "local" if term_local(t) else "other:" + show(t)[:30]
+    dn = defs_of(nl, cls_n)
+    if set(dn) != {"peer", "local"}:
+        return False, "n is assigned from %s" % sorted(dn)
+
+    def m(a, b):
+        if term_peer(a) and term_local(b):
+            return 1
+        if term_local(a) and term_peer(b):
+            return -1
+        return 0
+    W = Walker(ctx, f, [Atom("cmp(peer,local)", "cmp", m, ["<", "=", ">"])])
+    names, tab = W.table(dn)
+    ok1 = tab.get(("<",)) == {"peer"} and tab.get((">",)) == {"local"} and tab.get(("=",)) and tab.get(("=",)) <= {"peer", "local"}
+    if not ok1:
+        return False, "n by order of (peer limit, local limit): %s" % {k[0]: sorted(v) for k, v in tab.items()}
+    # the peer limit is 0 when the peer announced nothing
+    pls = set(x[1] for bi in dn["peer"] for st in f.blocks[bi]["s"] if st["k"] == "assign" and st["p"]["l"] == nl for x in subterms(T.rvalue(st["r"])) if x[0] == "var" and peer_local(x[1]))
+    for pl in pls:
+        def cls_p(t):
+            return "zero" if t == ("const", 0) else "announced" if term_peer(t) else "other:" + show(t)[:30]
+        dp = defs_of(pl, cls_p)
+        if set(dp) != {"zero", "announced"}:
+            return False, "peer limit is assigned from %s" % sorted(dp)
+
+        def a_get(t):
+            return t[0] == "call" and t[1].endswith(("HashMap::get", "BTreeMap::get"))
+        W2 = Walker(ctx, f, [Atom("announced", "opt", a_get, ["None", "Some"])])
+        names, tab2 = W2.table(dp)
+        if not (tab2.get(("None",)) == {"zero"} and tab2.get(("Some",)) == {"announced"}):
+            return False, "peer limit by announcement: %s" % {k[0]: sorted(v) for k, v in tab2.items()}
+    return True, "n = peer limit (0 if not announced) when it is smaller than queue.max_streams, else queue.max_streams (guard tables)"
+
+
 def rule_stream_ids(ctx):
     R = "C14.3"
     ctx.rule(R, "stream-id partition: per capability min(local max_streams, peer's announced limit or 0) reusable streams, ids assigned consecutively from the running count")
     f = ctx.body(MUX + "::spawn_streams")
     T = ctx.T(f)
-    mins = [T.args_of(c) for c in T.calls() if c["q"] == "std::cmp::min"]
-    ok = any(chain(a[0])[1][-1:] == ["max_streams"] and any(x[0] == "call" and x[1] == "std::option::Option::unwrap_or" for x in subterms(a[1])) or
-             chain(a[1])[1][-1:] == ["max_streams"] and any(x[0] == "call" and x[1] == "std::option::Option::unwrap_or" for x in subterms(a[0])) for a in mins)
-    ctx.ob(R, "stream count per capability", ok, "min(queue.max_streams, peer.get(cap).unwrap_or(0))" if ok else "per-capability stream count is not the minimum of both sides' limits: %s" % [[show(x)[:50] for x in a] for a in mins], f.loc())
+    ok, how = stream_count_is_min(ctx, f)
+    ctx.ob(R, "stream count per capability", ok, how if ok else "per-capability stream count is not the minimum of both sides' limits: %s" % how, f.loc())
     ids = [T.args_of(c)[0] for c in T.calls() if c["q"] == HDR + "::StreamId::new"]
     ok = bool(ids) and all(any(x[0] == "call" and x[1].endswith("Vec::len") for x in subterms(i)) for i in ids)
     ctx.ob(R, "consecutive ids", ok, "StreamId::new(streams.len() as u16): ids are consecutive in creation order" if ok else "stream ids: %s" % [show(i) for i in ids], f.loc())
